@@ -230,8 +230,8 @@ func scenCCH(s *sched.Sim, cfg Config, res *Result) {
 				case "overlap":
 					// time may pass while the two requests are in flight: a cached plan can expire (and be
 					// evicted by the other request) between being fetched and being executed
-					if who == "cached" && ttl > 0 && ttl <= time.Second && s.T.Bool(1, 2) {
-						addTick(s, 1+s.T.Choose(2), ttl+time.Nanosecond, nil)
+					if who == "cached" && ttl > 0 && ttl <= time.Second && s.DrawBool(1, 2) {
+						addTick(s, 1+s.Draw(2), ttl+time.Nanosecond, nil)
 						res.Probe("cch.clock-advances-while-requests-overlap")
 					}
 					rs := make([]*clientResp, 2)
